@@ -197,7 +197,7 @@ class DriverView:
 
 
 class State:
-    __slots__ = ('eng', 'pc', 'dv', 'parent', 'action', 'depth', 'result', 'hist', 'out')
+    __slots__ = ('eng', 'pc', 'dv', 'parent', 'action', 'depth', 'result', 'hist', 'out', 'sw')
 
     def __init__(self, eng, pc, dv, parent=None, action=None, result=None):
         self.eng = eng
@@ -208,6 +208,7 @@ class State:
         self.result = result
         self.hist = None
         self.out = None             # term reported by the job of an ('ok', j) action
+        self.sw = None              # illegal NodeInfo.state writes seen by the write barrier during the event
         self.depth = 0 if parent is None else parent.depth + 1
 
     def path(self):
@@ -365,6 +366,8 @@ class Explorer:
         dv = st.dv.clone()
         orc = sym.Oracle(self.z, st.pc, prefix)
         rt.CTX.oracle = orc
+        self._sw = []
+        rt.CTX.state_hook = self._state_hook
         rt.STEPS.event = 0
         rt.STEPS.budget = self.step_budget
         ns = State(eng, orc.pc, dv, st, action)
@@ -436,7 +439,9 @@ class Explorer:
             dv.errors = dv.errors + ((action, result),)
         finally:
             rt.CTX.oracle = None
+            rt.CTX.state_hook = None
         ns.result = result
+        ns.sw = self._sw or None
         self.n_events += 1
         if not result.startswith(('panic', 'stepbudget')):
             try:
@@ -458,6 +463,25 @@ class Explorer:
             self.n_forks += len(alts)
             out.append(ns)
         return out
+
+    _KTY = ('JobStateAlways', 'JobStateOutput', 'JobStateEphemeral')
+
+    def _state_hook(self, old, new):
+        """write barrier on NodeInfo.state (C17): lifecycle monotonicity at the instruction where a state changes"""
+        self.n_state_writes = getattr(self, 'n_state_writes', 0) + 1
+        ko, kn = old[0], new[0]
+        E = self.mod.ENUMS
+        on = E[self._KTY[ko]][old[1][0]]
+        nn = E[self._KTY[kn]][new[1][0]]
+        bad = None
+        if ko != kn:
+            bad = 'the kind of a job changed'
+        elif on.startswith('Finished') and not nn.startswith('Finished'):
+            bad = 'a finished job became unfinished'
+        elif on.startswith('FinishedSuccess') and nn in FINISHED_BAD:
+            bad = 'a successfully executed job became failed / upstream-failed / aborted'
+        if bad:
+            self._sw.append('%s: %s(%s) -> %s(%s)' % (bad, self._KTY[ko][8:], on, self._KTY[kn][8:], nn))
 
     # ------------------------------------------------------------------ main loop
     def report(self, prop, what, state, detail=None, model=None, extra_pc=None):
